@@ -1,7 +1,7 @@
 """C03 - AsyncLoop honours its start/stop/destroy protocol on every interleaving."""
 import json, os, random, subprocess, time
 from collections import deque
-from .. import tla, build, trace
+from .. import tla, build, trace, adt
 from ..tla import VERIF, WORK, InfraError
 
 LEVEL = "model_checking"
@@ -16,7 +16,13 @@ LEVEL_TEXT = ("TLC checks that the PlusCal mechanism model of AsyncLoop.h (one l
               "(this decides), and the recorded steps against the mechanism model (detects model drift).  A second model, AsyncLoopTSO, puts the "
               "stop()/body handshake under x86-TSO store buffers: it holds with the header's seq_cst stores and is refuted when either store "
               "is weakened; because the hook callbacks are fences, this part is bound to the code by rapid start/stop cycles on a build "
-              "WITHOUT hook points whose suspicious cycles (a body observed the token published after stop() returned) are validated by TLC.")
+              "WITHOUT hook points whose suspicious cycles (a body observed the token published after stop() returned) are validated by TLC.  "
+              "Several instances / identity of the caller: AsyncLoopMulti models 2 instances with per-instance shouldBeRunning / insideLoopBody whose "
+              "start() / stop() are issued by an external thread or by the loop thread of the OTHER instance from inside its body; TLC checks that it "
+              "refines the per-instance contract AsyncLoopMultiContract (no body of i after stop(i) returned to any caller), Independence and that every "
+              "call returns, and refutes a per-thread-flag and a per-process-flag variant; plans from TLC's state graph of AsyncLoopMultiPlan (transition "
+              "cover, all plans up to a length, random walks) are replayed on 2 real instances (all launch-method pairs, 4 backends) with bodies parked at "
+              "a gate, and TLC validates the stamped events (body entry / exit stamped inside the body) against AsyncLoopMultiContract.")
 LEVEL_NOTE = ("bounded scripts (<= 3 calls quick, <= 4 thorough, + destroy) in the exhaustive part; sequentially consistent atomics assumed by the "
               "mechanism model (the header uses seq_cst std::atomic; AsyncLoopTSO.tla shows the handshake needs them, and the hook-free stress "
               "plan looks for weakened orderings on this x86 machine only - other architectures' reorderings are not observable here); bounded-time clause checked as: with the loop thread given every step it asks for, "
@@ -287,6 +293,190 @@ def validate_and_report(chk, execs, results, tag, backend, check_mech):
     return acc, len(rej), mech_ok, drift, nd
 
 
+
+# ----------------------------------------------------------------------------------------------------------------------
+# several instances alive at once; start() / stop() issued from a thread that is executing the body of another instance
+# ----------------------------------------------------------------------------------------------------------------------
+MULTI_N = 2
+MULTI_COMBOS = (("THREAD", "THREAD"), ("TASK", "TASK"), ("THREAD", "TASK"), ("TASK", "THREAD"))
+
+
+def multi_models(chk, quick):
+    """Design level: the N-instance mechanism refines the N-instance contract for every caller; the negative controls
+    (per-thread flag, per-process insideLoopBody) are refuted."""
+    from concurrent.futures import ThreadPoolExecutor
+    code = "AsyncLoopMultiMC%s_code.cfg" % ("q" if quick else "")
+    cfgs = [(code, True, "2 instances, callers {external thread, body of the other instance}: RefinesContract, NoBodyAfterStop per instance, "
+                         "Independence, Completes"),
+            ("AsyncLoopMultiMC_perthread.cfg", False, "negative control: stop() skips the wait when the calling thread is inside ANY loop body (per-thread flag)"),
+            ("AsyncLoopMultiMC_sharedflag.cfg", False, "negative control: insideLoopBody is one cell per process instead of one per instance")]
+    with ThreadPoolExecutor(max_workers=3) as pool:      # three independent TLC runs side by side
+        futs = [pool.submit(tla.run_tlc, os.path.join(SPEC, "AsyncLoopMulti.tla"), os.path.join(SPEC, cfg), workers=4, timeout=1200,
+                            tag="c03multi-" + cfg.replace(".cfg", "")) for cfg, _, _ in cfgs]
+        results = [f.result() for f in futs]
+    for (cfg, holds, what), r in zip(cfgs, results):
+        if holds:
+            chk.require_model_ok("AsyncLoopMulti/" + cfg, r, what)
+        else:
+            if r.ok:
+                raise InfraError("negative control %s was not refuted by TLC: the multi-instance properties are vacuous" % cfg)
+            chk.add_model("AsyncLoopMulti/" + cfg, r, what + " -> refuted (%s)" % r.violated)
+
+
+def multi_plans(chk, quick, rnd):
+    """Plans from TLC's state graph of AsyncLoopMultiPlan: transition cover, all plans up to a length, random walks."""
+    ag, r = adt.build_graph(os.path.join(SPEC, "AsyncLoopMultiPlan.tla"), os.path.join(SPEC, "AsyncLoopMultiPlan.cfg"), tag="c03plan")
+    chk.add_model("AsyncLoopMultiPlan/AsyncLoopMultiPlan.cfg", r, "plan generation: %d abstract states, %d abstract transitions" % (len(ag.states), ag.nedges))
+    cover = adt.edge_cover(ag)
+    K = 2 if quick else 3
+    allp = adt.all_paths(ag, K, 200000) or []
+    walks = adt.random_walks(ag, 24 if quick else 600, 8, rnd.randint(1, 10 ** 6))
+    for st in ag.states:
+        for i in range(MULTI_N):       # sanity of the generator itself: never a held body of a stopped instance
+            if st["held"][i] and not st["run"][i]:
+                raise InfraError("AsyncLoopMultiPlan produced an impossible abstract state %s" % st)
+    info = {"abstract_states": len(ag.states), "abstract_transitions": ag.nedges, "transition_cover": len(cover),
+            "all_plans_len": K, "all_plans": len(allp), "random_walks": len(walks)}
+    return cover, allp, walks, info
+
+
+def multi_trace(ex, res):
+    ev = [{"e": "Begin", "methods": list(ex["methods"])}]
+    for e in sorted(res.get("events", []), key=lambda x: x["s"]):
+        ev.append({"e": e["e"], "i": e["i"], "c": e["c"]})
+    if res.get("hang"):
+        ev.append({"e": "Hang", "i": 0, "c": 0})
+    return ev
+
+
+def multi_scenarios(ev):
+    """Which of the scenarios the plans are meant to produce did this recorded execution contain (vacuity guard only):
+    read from the stamped events - HoldOk(i) .. BodyExit(i) is the period in which the body of i is parked mid-invocation."""
+    inbody, out = {}, set()
+    for x in ev:
+        e, i, c = x["e"], x.get("i"), x.get("c")
+        if e == "BodyEnter": inbody[i] = "free"
+        elif e == "HoldOk": inbody[i] = "held"
+        elif e == "BodyExit": inbody[i] = None
+        elif e in ("StopCall", "StartCall"):
+            who = "ext" if c == 0 else "body"
+            tgt = "held" if inbody.get(i) == "held" else "other"
+            out.add("%s(caller=%s,target-body=%s)" % (e[:-4], who, tgt))
+    return out
+
+
+def classify_multi(ev, k):
+    """Signature class of a rejected multi-instance contract event (naming only)."""
+    x = ev[k]
+    e, i, c = x["e"], x.get("i", 0), x.get("c", 0)
+    b, q = False, True
+    for y in ev[:k]:
+        if y.get("i") != i: continue
+        if y["e"] == "BodyEnter": b = True
+        elif y["e"] == "BodyExit": b = False
+        elif y["e"] == "StartCall": q = False
+        elif y["e"] == "StopRet": q = True
+    who = "ext" if c == 0 else "body-of-other-instance"
+    if e in ("StopRet", "DtorRet"):
+        return "%s(caller=%s,%s)" % (e, who, "body-active" if b else "other")
+    if e == "BodyEnter":
+        return "BodyEnter(%s)" % ("while-stopped" if q else ("overlapping" if b else "other"))
+    if e in ("StartCall", "StopCall", "StartRet"):
+        return "%s(caller=%s)" % (e, who)
+    return "%s()" % e
+
+
+def multi_exec(chk, exe, plans, combos, tag, backend, rnd):
+    """Run the plans on the real code; returns the executions with their recorded contract traces (no verdict here)."""
+    execs = []
+    for methods in combos:
+        for pl in plans:
+            execs.append({"mode": "multi", "methods": list(methods), "plan": [{"a": st["a"], "i": st["i"], "c": st["c"]} for st in pl],
+                          "cls": [st.get("cls", "") for st in pl], "seed": rnd.randint(1, 10 ** 6)})
+    res = run_driver(exe, execs, "c03-multi-" + tag, timeout=600)
+    out = []
+    scen = {}
+    for i, ex in enumerate(execs):
+        r = res.get(i)
+        if r is None:
+            raise InfraError("no result for multi-instance execution %d of %s" % (i, tag))
+        if r.get("skipped"):
+            continue
+        if r.get("error"):
+            raise InfraError("multi-instance driver could not interpret a plan (%s): %s; plan %s" % (tag, r["error"], ex["plan"]))
+        tr = multi_trace(ex, r)
+        out.append((backend, ex, tr))
+        for sc in multi_scenarios(tr):
+            scen[sc] = scen.get(sc, 0) + 1
+    return out, scen
+
+
+MULTI_NEED = ["Stop(caller=body,target-body=held)", "Stop(caller=ext,target-body=held)", "Start(caller=body,target-body=other)",
+              "Stop(caller=body,target-body=other)"]
+
+
+def multi_validate(chk, runs, tag):
+    """TLC validates every recorded execution against AsyncLoopMultiContract (this decides)."""
+    traces = [tr for _, _, tr in runs]
+    acc, rej, stats = trace.validate(os.path.join(SPEC, "AsyncLoopMultiTrace.tla"), os.path.join(SPEC, "AsyncLoopMultiTrace.cfg"),
+                                     traces, "c03-multi-" + tag, separator=False, max_rejections=8, reset_key="e")
+    chk.cov["traces_validated_against_impl"] += acc + len(rej)
+    chk.cov["contract_events_validated"] = chk.cov.get("contract_events_validated", 0) + stats["events"]
+    for rj in rej:
+        backend, ex, ev = runs[rj["exec"]]
+        cls = classify_multi(ev, rj["line"])
+        sig = "%s/multi/%s/contract-rejected" % (SIG, cls)
+        what = ("%d instances (%s), %s backend, plan %s: contract event %d (%s of instance %s, calling thread %s) is not allowed by "
+                "AsyncLoopMultiContract; events: %s"
+                % (len(ex["methods"]), "+".join(ex["methods"]), backend,
+                   " ".join("%s(%d,%s)" % (st["a"], st["i"], "ext" if st["c"] == 0 else "body%d" % st["c"]) for st in ex["plan"]),
+                   rj["line"], ev[rj["line"]]["e"], ev[rj["line"]].get("i"), ev[rj["line"]].get("c"),
+                   " ".join("%s%s" % (x["e"], x.get("i", "")) for x in ev[max(0, rj["line"] - 12):rj["line"] + 1])))
+        chk.violation(sig, what, {"kind": "asyncloop-multi", "backend": backend, "exec": ex, "contract_events": ev,
+                                  "rejected_at": rj["line"]})
+    return acc, len(rej), stats["events"]
+
+
+def multi_part(chk, quick, rnd, exe_tbb):
+    multi_models(chk, quick)
+    cover, allp, walks, info = multi_plans(chk, quick, rnd)
+    chk.count_actions([[{"a": "multi:" + st["a"]} for st in pl] for pl in cover + allp + walks])
+    chk.require_actions(["multi:Start", "multi:Stop", "multi:Hold", "multi:Release", "multi:Probe"])
+    cov = {"plan_generation": info, "backends": {}}
+    total = 0
+    runs = []
+    for backend in build.BACKENDS:
+        exe = exe_tbb if backend == "TBB" else build.build("drv_asyncloop", backend=backend)
+        if backend == "TBB":
+            combos, plans = list(MULTI_COMBOS), cover + allp + walks
+        else:
+            combos = [("THREAD", "THREAD")] if backend == "Debug" else [("THREAD", "THREAD"), ("TASK", "TASK")] if quick else list(MULTI_COMBOS)
+            plans = cover + walks[:len(walks) // 4]
+        out, scen = multi_exec(chk, exe, plans, combos, backend, backend, rnd)
+        # vacuity guards: the scenarios of the gap class were really produced on this backend (read from the stamped events)
+        for sc in MULTI_NEED:
+            if not scen.get(sc):
+                raise InfraError("vacuity guard (multi-instance, %s): no recorded execution contains %s" % (backend, sc))
+        if not any(x["e"] == "ProbeOk" for _, _, t in out for x in t):
+            raise InfraError("vacuity guard (multi-instance, %s): no Probe was answered" % backend)
+        runs += out
+        n = len(out)
+        chk.log("multi-instance %s: %d executions (%d plans x %d launch-method pairs); scenarios seen: %s"
+                % (backend, n, len(plans), len(combos), ", ".join("%s x%d" % kv for kv in sorted(scen.items()))))
+        chk.cov["evaluations"] += n
+        chk.cov["distinct_nontrivial"] += n
+        total += n
+        cov["backends"][backend] = {"executions": n, "launch_method_pairs": len(combos), "plans": len(plans), "scenarios_seen": scen}
+    acc, nrej, nev = multi_validate(chk, runs, "all")
+    chk.log("multi-instance: %d executions validated by TLC against AsyncLoopMultiContract: %d accepted / %d rejected (%d events)" % (total, acc, nrej, nev))
+    cov["events_validated"] = nev
+    cov["executions"] = total
+    cov["what"] = ("2 AsyncLoop instances alive at once; start()/stop() of one instance issued by the harness thread or by the loop thread "
+                   "of the other instance from inside its body (parked at a gate); the stopped instance's body parked mid-invocation; "
+                   "Probe = the other instance still enters new bodies")
+    chk.cov["multi_instance"] = cov
+
+
 def run(chk, replay=None):
     quick = chk.tier == "quick"
     rnd = random.Random(chk.seed)
@@ -294,6 +484,9 @@ def run(chk, replay=None):
         "the PlusCal model assumes sequentially consistent atomics and a fair scheduler",
         "scripts over {start, stop, settle} of bounded length; one controlling thread (the class is not meant to be driven from several threads)",
         "TASK launch under the serial Debug backend is excluded: schedule() runs the loop synchronously inside the constructor, which is how that backend is defined",
+        "several instances: N = 2; one call in flight at a time (judged at synchronised points); stop(i) issued by the body of i itself is outside the "
+        "contract (it waits for its own return) and is never generated; the multi-instance mechanism model abstracts the condition-variable wait "
+        "(covered by the single-instance model)",
     ]
     if replay:
         return do_replay(chk, replay)
@@ -380,12 +573,17 @@ def run(chk, replay=None):
         chk.log("free-running %s: %d executions, contract %d accepted / %d rejected" % (backend, nfree_run, acc, nrej))
         chk.cov["evaluations"] += nfree_run
         chk.cov["distinct_nontrivial"] += len({json.dumps([e["method"], e["script"], e["seed"]]) for e in execs})
+    # 4b. several instances alive at once, calls issued from inside another instance's body (state per thread / per process
+    #     instead of per instance)
+    multi_part(chk, quick, rnd, exe)
     # 5. free-running stress on a build WITHOUT hook points (their callbacks are fences: the instrumented build cannot show a
     #    store-buffer reordering, see AsyncLoopTSO.tla)
     run_stress(chk, quick)
     chk.cov["rule"] = ("executions of the real AsyncLoop: (a) one forced schedule per path of a transition cover of TLC's state graph of the mechanism model, "
                        "(b) seeded random serialised schedules over random scripts, (c) free-running runs with seeded delays at the hook points on 4 backends, (d) rapid start/stop cycles on a build without hook points "
-                       "(the driver writes the first cycles and every cycle in which a body observed the 'stop() has returned' token; TLC validates them); "
+                       "(the driver writes the first cycles and every cycle in which a body observed the 'stop() has returned' token; TLC validates them), "
+                       "(e) plans over 2 instances alive at once from TLC's graph of AsyncLoopMultiPlan, with start()/stop() issued by the harness thread or from inside "
+                       "the other instance's body (cov.multi_instance lists the scenarios read back from the stamped events); "
                        "distinct = distinct (method, script, schedule/seed); all are non-trivial (every script ends with the destructor)")
     chk.cov["model_transitions_covered_by_forced_schedules"] = total_edges
 
@@ -465,6 +663,12 @@ def do_replay(chk, path):
     ex = rep["exec"]
     backend = rep.get("backend", "TBB")
     exe = build.build("drv_asyncloop", backend=backend)
+    if rep.get("kind") == "asyncloop-multi":
+        plan = [dict(st, cls=c) for st, c in zip(ex["plan"], ex.get("cls", [""] * len(ex["plan"])))]
+        out, _ = multi_exec(chk, exe, [plan] * 5, [tuple(ex["methods"])], "replay", backend, random.Random(ex.get("seed", 1)))
+        multi_validate(chk, out, "replay")
+        chk.cov["evaluations"] += len(out)
+        return
     n = 1 if ex["mode"] != "free" else 200
     execs = [dict(ex) for _ in range(n)]
     res = run_driver(exe, execs, "c03-replay")
